@@ -148,7 +148,7 @@ def main(modname, argv):
         k = core.match_known(v2, known)
         if k is None and desc is not v['desc']:
             k = core.match_known(v, known)
-        path = core.write_replay(prop, seed, i, v2, '-' + '-'.join(str(c) for c in cls[1:]).replace('@', '_at_').replace('/', '_'))
+        path = core.write_replay(prop, seed, i, v2, '-' + '-'.join(str(c) for c in cls[1:]).replace('@', '_at_').replace('/', '_').replace(':', '_'))
         if k is not None:
             known_lines.append('KNOWN-FINDING: property=%s %s [%s; %d occurrence(s); replay=%s]' % (prop, k['what'], k['id'], len(occ), path))
         else:
